@@ -30,6 +30,7 @@ func c13(c *Ctx) {
 	c13R4(c)
 	c13R5(c)
 	c13R6(c)
+	itemIndependent(c, "C13.R7", [][3]string{{"daemon", "ruleSync", "one rule set per pod interface"}})
 }
 
 func c13Generators(c *Ctx) []*FuncInfo {
